@@ -23,6 +23,7 @@ theorem response_history_independent (app : App) (hist : List HReq) (r : HReq) :
   simp only
   rw [resolve_core _ _ r hcore]
   rw [wsgi_slots_irrelevant app (hist.foldl (serve₁ app) AppState.init).slots AppState.init.slots]
+  rw [withProbe_slots_irrelevant (hist.foldl (serve₁ app) AppState.init).slots AppState.init.slots]
 
 /-- nothing a request sets or sends is ever written to the shared `HTTPError` objects of
 `errors_map`: after any history their status, headers, cookies and body are the initial ones -/
@@ -99,16 +100,24 @@ theorem retained_bounded_exists :
 
 /-- the one environ the request object keeps is the last request's -/
 theorem request_slot_is_last (app : App) (st : AppState) (r : HReq) :
-    (serve app st r).1.slots.req = some { id := r.req.id, urlRepr := r.req.urlRepr, json := r.req.json } := by
+    ((serve app st r).1.slots.req).map (fun q => (q.id, q.urlRepr, q.json)) =
+      some (r.req.id, r.req.urlRepr, r.req.json) := by
   have hreq : (resolve st.shared r).1.id = r.req.id ∧ (resolve st.shared r).1.urlRepr = r.req.urlRepr ∧
       (resolve st.shared r).1.json = r.req.json := by
     unfold resolve
     split
     · split <;> exact ⟨rfl, rfl, rfl⟩
     · exact ⟨rfl, rfl, rfl⟩
+  have hp := withProbe_ids st.slots r (resolve st.shared r).1
+  have hw := wsgi_req app st.slots (withProbe st.slots r (resolve st.shared r).1)
+  rw [hp.1, hp.2.1, hp.2.2, hreq.1, hreq.2.1, hreq.2.2] at hw
   unfold serve
   simp only
-  rw [wsgi_req, hreq.1, hreq.2.1, hreq.2.2]
+  cases r.ext with
+  | none => simp only [hw, Option.map_some]
+  | some sets =>
+    simp only [hw]
+    split <;> simp only [hw, Option.map_some]
 
 /-! ### NonVacuity: concrete histories -/
 section NonVacuity
